@@ -343,7 +343,11 @@ func judge(out *CheckOutcome, tier string, verbose bool) *Verdict {
 				}
 				continue
 			}
-			if r.Status == "undecided" && haveLedger && !expected[baseName(r.Name)] {
+			if r.Status == "undecided" && haveLedger && !expected[baseName(r.Name)] && r.Class != "safe:extnil" {
+				// (a new `extnil` site is different: whether the value of a (value, error) pair is
+				// used only after the error was tested is decided by the branch conditions of the
+				// path alone; a site the solvers cannot discharge is reported, like a new site of
+				// a group that is already in the ledger)
 				v.UndecidedNew = append(v.UndecidedNew, r.Name)
 				continue
 			}
